@@ -152,6 +152,23 @@ def aim_file_end(cursor, qlen, r):
     return mrl.aimed_payload_len(cursor % F if cursor % F else 0, qlen, r, extra) if blocks_left >= 1 else None
 
 
+def aim_stream_pos(cursor, qlen, target):
+    """payload length L of a one-record append starting at stream offset cursor that ends exactly at
+    stream offset target (None if no such L)"""
+    lo, hi = 0, max(0, target - cursor)
+    over = 11 + qlen + 12
+    while lo <= hi:
+        mid = (lo + hi) // 2
+        end = mrl.advance(cursor, over + mid)
+        if end == target:
+            return mid
+        if end < target:
+            lo = mid + 1
+        else:
+            hi = mid - 1
+    return None
+
+
 class TwoPass(PropBase):
     """base histories are run once on the real crate; cases are derived from their traces"""
     base_quick = 24
@@ -1089,6 +1106,33 @@ class C10(DamageBase):
                         ops.append("seedfile %s %s" % (nm.encode().hex(), rng.choice(["f 0102", "d"])))
             out.append(("%s_x%d" % (bid, k), cmds + ops + ["open af"]))
             self.stats["images"] = self.stats.get("images", 0) + 1
+        # length-field window: a frame header whose length makes header+payload end just before / at / after
+        # the block end (where a bounds check that forgets the 7 header bytes would slip)
+        layout = call_layout(cmds, tr)
+        frames = []
+        for i, lay in layout.items():
+            for (h, n) in lay["frames"]:
+                f, o = stream_to_file(h)
+                if f in live:
+                    frames.append((f, o))
+        rng.shuffle(frames)
+        k = 0
+        for (f, o) in frames[: max(3, self.per_base() // 4)]:
+            c = o % B
+            for delta in rng.sample([-1, 0, 1, 2, 6, 7, 8], 3):
+                ln = B - c - 7 + delta
+                if 0 <= ln < 65536:
+                    ty = rng.choice([1, 2, 3, 4])
+                    out.append(("%s_w%d" % (bid, k), cmds + ["damage %d %d x%s" % (f, o + 4, (struct.pack("<H", ln) + bytes([ty])).hex()), "open af"]))
+                    k += 1
+                    self.stats["len_window_images"] = self.stats.get("len_window_images", 0) + 1
+        for blk in range(mrl.NBV):
+            f = rng.choice(live)
+            delta = rng.choice([-1, 0, 1, 3, 7, 8])
+            ln = B - 7 + delta
+            if ln < 65536:
+                hdr = struct.pack("<IHB", rng.randrange(0, 2 ** 32), ln, rng.choice([1, 2, 3, 4]))
+                out.append(("%s_v%d" % (bid, blk), cmds + ["damage %d %d x%s" % (f, blk * B, hdr.hex()), "open af"]))
         return out
 
     def generate(self, n=None, tag="g"):
@@ -1200,6 +1244,24 @@ class C12(TwoPass):
                    "never a hole, never a missing tail")
 
     def base_history(self, rng, i):
+        if i % 6 == 0:
+            # in-phase family: all items of the batch have the same size d, with d dividing the payload
+            # capacity of a full block, and the batch has Middle frames: losing exactly one Middle frame
+            # would leave a buffer that still parses (a batch with a hole)
+            cap = mrl.B - 7
+            divs = [d for d in range(13, 400) if cap % d == 0] or [cap]
+            d = rng.choice(divs)
+            n = (3 * mrl.B) // d + rng.randrange(5, 40)
+            g = HistGen(rng, policy="af", nqueues=1)
+            g.cmds.append("create =q"); g.ref.create("=q"); g.note_write("pos", "=q")
+            pls = ["%d:%d" % (d - 12, 500 + k) for k in range(n)]
+            res = g.ref.append("=q", None, pls)
+            g.cmds.append("append =q - " + " ".join(pls))
+            g.note_write("append", "=q", [d - 12] * n)
+            g.batch = (len(g.cmds) - 1, "=q", 0, pls)
+            g.inphase = True
+            self.stats["inphase_batches"] = self.stats.get("inphase_batches", 0) + 1
+            return g.cmds + ["drop"], g
         g = HistGen(rng, policy=rng.choice(self.policies), max_payload=40000)
         g.run(rng.randrange(3, 12), weights={"create": 10, "delete": 3, "append": 55, "truncate": 25, "persist": 0, "restart": 3})
         existing = [n for n in g.names if n in g.ref.q]
@@ -1246,8 +1308,16 @@ class C12(TwoPass):
             frames = [(stream_to_file(h), n) for (h, n) in layout[bi]["frames"]]
             frames = [((f, o), n) for ((f, o), n) in frames if f in live]
             rng.shuffle(frames)
-            for ((f, o), n) in frames[: max(2, self.per_base() // 3)]:
+            nfr = max(2, self.per_base() // 3)
+            if getattr(g, "inphase", False):
+                # damage each Middle frame (full-block frames) in its payload
+                mids = [fr for fr in frames[1:-1]] if len(frames) > 2 else frames
+                frames = mids + [fr for fr in frames if fr not in mids]
+                nfr = max(nfr, min(len(mids), 6))
+            for ((f, o), n) in frames[: nfr]:
                 x = rng.random()
+                if getattr(g, "inphase", False) and n > 0:
+                    x = 0.9
                 if x < 0.4 or n == 0:
                     off = o + rng.randrange(0, 7)
                 else:
@@ -1319,7 +1389,24 @@ class C14(PropBase):
         for i in range(n or self.ncases()):
             rng = random.Random(self.rng.random())
             g = HistGen(rng, policy="POL")
-            g.run(rng.randrange(8, 36), weights={"create": 8, "delete": 5, "append": 46, "truncate": 26, "persist": 8, "restart": 7})
+            if i % 5 == 1:
+                # a roll-over caused by a control entry (create_queue) while nothing retained lives in the
+                # old file: the only moment a file is deletable outside a truncate/delete; then calls on
+                # empty queues, persists, restart
+                # the truncate entry (7+11+1 bytes) must still fit, the create entry (7+11+5) must not
+                r = 19 + rng.choice([0, 1, 3, 6, 7, 10, 15, 22])
+                l = aim_file_end(7 + 12, 1, r)
+                g.cmds += ["create =q", "append =q - %d:7" % l, "truncate =q 0"]
+                g.ref.create("=q"); g.ref.append("=q", None, ["%d:7" % l]); g.ref.truncate("=q", 0)
+                g.cmds += ["create =fresh", "append =fresh - 5:1", "persist f", "append =q - 9:2", "append =fresh - 0:3 4:4"]
+                g.names = ["=q", "=fresh"]
+                for c in g.cmds[-5:]:
+                    apply_ref(g.ref, c.split())
+                if rng.random() < 0.5:
+                    g.cmds += ["truncate =fresh 0", "create =third", "append =third 7 1:1"]
+                self.stats["create_rolls_profile"] = self.stats.get("create_rolls_profile", 0) + 1
+            else:
+                g.run(rng.randrange(8, 36), weights={"create": 8, "delete": 5, "append": 46, "truncate": 26, "persist": 8, "restart": 7})
             g.op_restart()
             self.merge_stats(g.stats)
             for pol in self.policies:
@@ -1378,8 +1465,36 @@ class C18(PropBase):
         for i in range(n or self.ncases()):
             rng = random.Random(self.rng.random())
             g = HistGen(rng, policy=rng.choice(self.policies), nqueues=rng.choice([2, 3, 4]), max_payload=50000)
-            g.run(rng.randrange(10, 40), weights={"create": 9, "delete": 6, "append": 46, "truncate": 28, "persist": 2, "restart": 7})
-            g.op_restart()
+            if i % 5 == 2:
+                # one queue's truncation / deletion frees the oldest file while the cursor is a few bytes before
+                # the end of the current one, with idle empty bystander queues: the GC's own position records
+                # roll the writer over
+                r = rng.randrange(4, 120)
+                nb = rng.choice([1, 2, 4, 8])
+                names = ["=a"] + ["=b%d" % k for k in range(nb)]
+                cmds = ["open %s" % g.policy]
+                cursor = 0
+                for n in names:
+                    cmds.append("create %s" % n); cursor = mrl.advance(cursor, 11 + len(n) - 1)
+                for n in names[1:]:
+                    if rng.random() < 0.5:
+                        cmds.append("append %s - 5:1" % n); cursor = mrl.advance(cursor, 11 + len(n) - 1 + 12 + 5)
+                        cmds.append("truncate %s 0" % n); cursor = mrl.advance(cursor, 11 + len(n) - 1)
+                target = 2 * mrl.FILE - r - (7 + 11 + 1)
+                l = aim_stream_pos(cursor, 1, target)
+                if l is not None:
+                    cmds.append("append =a - %d:9" % l)
+                    cmds.append(rng.choice(["truncate =a 0", "delete =a"]))
+                    cmds += ["drop", "open af"]
+                    g.cmds = cmds
+                    g.names = names
+                    self.stats["gc_roll_profile"] = self.stats.get("gc_roll_profile", 0) + 1
+                else:
+                    g.run(rng.randrange(10, 40))
+                    g.op_restart()
+            else:
+                g.run(rng.randrange(10, 40), weights={"create": 9, "delete": 6, "append": 46, "truncate": 28, "persist": 2, "restart": 7})
+                g.op_restart()
             self.merge_stats(g.stats)
             cases.append(("%s%d_full" % (tag, i), g.cmds))
             for k, tok in enumerate(g.names):
